@@ -6,6 +6,10 @@ use crate::script::{word_for_k, word_mid, Script};
 use probminhash::fyshuffle::FYshuffle;
 use serde_json::{json, Value};
 
+thread_local! {
+    static SAMPLE: std::cell::RefCell<Option<Value>> = const { std::cell::RefCell::new(None) };
+}
+
 /// rank of a permutation of 0..m in 0..m! (Lehmer code)
 fn lehmer_rank(p: &[usize]) -> usize {
     let m = p.len();
@@ -135,6 +139,9 @@ fn check_bijection(m: usize, stats: &mut Stats) -> Outcome {
                 }
                 if refout != d.out {
                     ref_mismatch += 1;
+                }
+                if nscripts == 5 && m >= 3 {
+                    SAMPLE.with(|s| *s.borrow_mut() = Some(json!({"m": m, "choices": c, "generator_words_hex": words.iter().map(|w| format!("{:#x}", w)).collect::<Vec<_>>(), "order_drawn": d.out})));
                 }
                 let rk = lehmer_rank(&d.out);
                 if seen[rk / 64] & (1u64 << (rk % 64)) == 0 {
@@ -377,6 +384,11 @@ pub fn run(ctx: &Ctx) -> i32 {
     let max_m = ctx.pick(9, 11);
     for m in 1..=max_m {
         let o = check_bijection(m, &mut st);
+        if let Some(sv) = SAMPLE.with(|s| s.borrow_mut().take()) {
+            if m <= 5 {
+                ctx.sample(sv);
+            }
+        }
         if let Err(c) = handle(ctx, o, format!("bijection:m={}", m), json!({"kind": "bijection", "m": m})) {
             return c;
         }
